@@ -23,7 +23,7 @@ INLINE_STD = re.compile(r"^(?:[\w:<>,&* ]+? )?std::(exchange|__exchange|move|for
 INLINE = re.compile(r"^(?:auto |void |decltype\(auto\) )?boost::multi::(?:detail::array_allocator|array_types|static_array|array_ref|array|subarray|"
                     r"const_subarray|move_subarray|elements_range_t)<")
 
-INLINE_FREE = re.compile(r"^(?:[\w:<>,&* ]+? )?boost::multi::\w+\((?:boost::multi::)?(array|static_array|array_ref|subarray|const_subarray|move_subarray)<")
+INLINE_FREE = re.compile(r"^(?:[\w:<>,&* ]+? )?boost::multi::(?:\w+|operator[=!<>~]=?)\((?:boost::multi::)?(array|static_array|array_ref|subarray|const_subarray|move_subarray)<")
 
 PRIMS = [
     # (regex on demangled callee, event kind, may throw)
@@ -42,13 +42,20 @@ CONTAINER_CLASSES = {"array_allocator", "array_types", "static_array", "array_re
 
 
 def container_member(dm):
-    """member function (template) of a container-layer class, whatever its return type is spelled like"""
+    """member function (template) of a container-layer class, or free function / operator in boost::multi whose first parameter is a
+    container-layer object, whatever its return type is spelled like"""
     sh = short(dm)
     head = sh.split("(")[0].split()
     if not head:
         return False
     q = head[-1].split("::")
-    return len(q) >= 2 and q[-2] in CONTAINER_CLASSES
+    if len(q) >= 2 and q[-2] in CONTAINER_CLASSES:
+        return True
+    if "boost::multi::" in dm.split("(")[0] and len(q) == 1:
+        m = re.match(r"^[^(]*\((\w+)", sh)
+        if m and m.group(1) in CONTAINER_CLASSES - {"array_allocator", "elements_range_t"}:
+            return True
+    return False
 
 
 def short(name):
